@@ -19,7 +19,7 @@ for p in props:
             'replay_cmd_template': './check %s --replay {path}' % pid,
             'engine': 'vf',
             'level_claimed': {
-                'category': 'model_checking',
+                'category': getattr(m, 'CATEGORY', 'model_checking'),
                 'text': getattr(m, 'LEVEL', 'Bounded symbolic execution of the real dispenso functions lowered from clang IR; the solver decides every assertion for all inputs / interleavings inside the stated bounds; nothing is claimed outside them.'),
                 'design_ref': 'DESIGN.md section 3 (%s)' % pid},
             'level_note': getattr(m, 'NOTE', 'Trusted: clang -O1 lowering, the IR->C/SMT translator (validated, not verified), cbmc/z3, the environment stubs listed in the evidence file. Bounds are part of the claim.'),
